@@ -441,10 +441,6 @@ def run(ctx):
     invisibility_search(ctx, shim, chars, di_all, di_pick, r)
     chars.load([0x2000 + i for i in range(11)] + [0x202F, 0x205F, 0x3000, 0xA0, 0x2011, 0xE9])
     fallback_interference_search(ctx, shim, chars, di_all, ctx.rng("fallback"))
-    if ctx.broken and any(v[2] for v in ctx.violations):
-        ctx.violation("proof or correspondence no longer checks: " +
-                      ", ".join(str(b.get("module") or b.get("stream")) for b in ctx.broken),
-                      {"stage": "prove/correspond", "broken": ctx.broken}, found_input=False)
 
 
 def replay(ctx, rp):
